@@ -25,9 +25,12 @@ const (
 	Unknown Abs = iota
 	Zero
 	NonZero
+	// nonZeroConst is internal: a non-zero integer/string constant. Comparing
+	// x == k (k ≠ 0) true means x is non-zero; false says nothing.
+	nonZeroConst
 )
 
-func (a Abs) String() string { return [...]string{"?", "nil/false", "non-nil/true"}[a] }
+func (a Abs) String() string { return [...]string{"?", "nil/false", "non-nil/true", "const≠0"}[a] }
 func (a Abs) Inv() Abs {
 	switch a {
 	case Zero:
@@ -361,6 +364,16 @@ func constAbs(c *ssa.Const) Abs {
 			return NonZero
 		}
 		return Zero
+	case constant.Int:
+		if constant.Sign(c.Value) == 0 {
+			return Zero
+		}
+		return nonZeroConst
+	case constant.String:
+		if constant.StringVal(c.Value) == "" {
+			return Zero
+		}
+		return nonZeroConst
 	}
 	return Unknown
 }
@@ -381,7 +394,11 @@ func (e *Engine) evalD(c *config, v ssa.Value, d int) Abs {
 		return Unknown
 	}
 	if k, ok := v.(*ssa.Const); ok {
-		return constAbs(k)
+		if a := constAbs(k); a == nonZeroConst {
+			return NonZero
+		} else {
+			return a
+		}
 	}
 	if id, ok := e.ids[v]; ok {
 		if a := c.get(id); a != Unknown {
@@ -429,6 +446,16 @@ func (e *Engine) evalD(c *config, v ssa.Value, d int) Abs {
 				oa := e.evalD(c, other, d+1)
 				if oa == Unknown {
 					return Unknown
+				}
+				if ka == nonZeroConst {
+					// x == k with k ≠ 0: decidable only when x is zero
+					if oa != Zero {
+						return Unknown
+					}
+					if v.Op == token.NEQ {
+						return NonZero
+					}
+					return Zero
 				}
 				eq := oa == ka
 				if v.Op == token.NEQ {
@@ -521,6 +548,17 @@ func (e *Engine) assume(c *config, v ssa.Value, a Abs, d int) bool {
 			}
 			if k != nil {
 				ka := constAbs(k)
+				if ka == nonZeroConst {
+					// (other == k≠0) true ⇒ other non-zero; otherwise nothing
+					eq := a == NonZero
+					if v.Op == token.NEQ {
+						eq = !eq
+					}
+					if eq {
+						return e.assume(c, other, NonZero, d+1)
+					}
+					return true
+				}
 				if ka != Unknown && (k.Value != nil || nilable(other.Type())) {
 					// (other == k) is a  => other's zero-ness
 					eq := a == NonZero
@@ -810,6 +848,7 @@ func (e *Engine) stepBlock(c0 *config, sum *summary, isRoot bool) []*config {
 						}
 					}
 				}
+				forked := false
 				if evs := e.match(instr); len(evs) > 0 {
 					x := &Ctx{E: e, Fn: c.fn, Instr: instr, c: c}
 					for _, ev := range evs {
@@ -823,9 +862,40 @@ func (e *Engine) stepBlock(c0 *config, sum *summary, isRoot bool) []*config {
 							n.note = fmt.Sprintf("%s: %s", e.PosStr(instr.Pos()), ev.Name)
 							c = n
 						}
+						// boolean-valued instruction as an event: fork on its truth
+						if val, isVal := instr.(ssa.Value); isVal && ev.BoolIdx == 0 && !forked {
+							cur := e.eval(c, val)
+							kinds := []Abs{cur}
+							if cur == Unknown {
+								kinds = []Abs{NonZero, Zero}
+							}
+							for _, k := range kinds {
+								n := c.clone()
+								ph := Ok
+								if k == Zero {
+									ph = Fail
+								}
+								xx := &Ctx{E: e, Fn: c.fn, Instr: instr, c: n}
+								ns, msg := e.R.Step(xx, n.s, ev, ph)
+								if msg != "" {
+									e.violate(n, instr, msg)
+								}
+								n.s = ns
+								if !e.assume(n, val, k, 0) {
+									continue
+								}
+								e.id(val)
+								e.setFact(n, val, k)
+								n.note = fmt.Sprintf("%s: %s:%s", e.PosStr(instr.Pos()), ev.Name, ph)
+								next = append(next, n)
+							}
+							forked = true
+						}
 					}
 				}
-				next = append(next, c)
+				if !forked {
+					next = append(next, c)
+				}
 			}
 		}
 		cur = next
